@@ -178,3 +178,12 @@ Definition check_nrun (g1 g2 : goc) (chk : bool) (prog : dprog) (ops : list nop)
   let '(l, t) := nrun g1 g2 chk prog [] ops in
   bools_eqb l oks && shape_eqb (tree_shape t) after
   && forallb (fun pb => Bool.eqb (match nlookup t (fst pb) with Some _ => true | None => false end) (snd pb)) probes.
+
+(** The same through the program compiled from load_dirfile (Fmt/VpkDirRead.v [rexec] over Gen/VpkDirProg_gen.v [g_rprog]). *)
+From SV Require Import Fmt.VpkDirProg Fmt.VpkDirRead.
+Definition check_decode_p (dc : dcfg) (p : rprog) (file : bytes) (ex : option (N * list ent_t * (N * N))) : bool :=
+  match rexec dc p file, ex with
+  | None, None => true
+  | Some (v, es, f), Some (xv, xs, fd) => (v =? xv) && ent_match xs (load_table es) && dg_eqb (dg f) fd
+  | _, _ => false
+  end.
